@@ -45,6 +45,21 @@ def run(chk, repo, tier):
                        "symbolic FQ12 element and compared with Σ c_i·(w^i)^p; reference line functions are compared with the "
                        "affine line as rational functions (the optimized ones are in C13.R3); the flag is followed from "
                        "pairing() to the branch of miller_loop; both BLS loops are shown to make the same steps.")
+    # restate C05
+    from . import C05 as _dep_C05
+    from ..report import SubCheck as _SubCheck
+    chk.rule("C12.R6", "entry-point behaviour shared by both implementations (off-curve refusal, infinity ⇒ one, lock-step chain, loop scalar, final exponent): C05's obligations re-stated", 25)
+    _sub = _SubCheck()
+    _err = None
+    try:
+        _dep_C05.run(_sub, repo, tier)
+    except AnalysisError as _e:
+        _err = _e
+    for _rule, _construct, _key, _ok, _detail, _where in _sub.obs:
+        if True and (_rule in ("C05.R1", "C05.R2", "C05.R3")):
+            chk.ob("C12.R6", _construct, f"[{_rule}] {_key}", _ok, _detail, _where)
+    if _err is not None and all(o[3] for o in _sub.obs):
+        raise _err
     chk.rule("C12.R1", "exponent of every final_exponentiate equals (p¹²−1)/r as an integer (r | p⁴−p²+1 for the split form)", 4)
     chk.rule("C12.R2", "exptable[i] = (w^i)^p for i = 0..11 and exp_by_p(x) = Σ exptable[i]·c_i over all 12 coefficients", 2)
     chk.rule("C12.R3", "reference linefunc equals the affine secant / tangent / vertical line on every path", 2 * 3)
